@@ -136,7 +136,12 @@ func (spc *realStatefulPodControl) UpdateStatefulPod(set *apps.StatefulSet, pod 
 }
 
 func (spc *realStatefulPodControl) DeleteStatefulPod(set *apps.StatefulSet, pod *v1.Pod) error {
-	err := spc.client.CoreV1().Pods(set.Namespace).Delete(context.TODO(), pod.Name, metav1.DeleteOptions{})
+	// delete the Pod that was looked at, not whatever Pod holds its name by now (the Pod cache may be stale)
+	options := metav1.DeleteOptions{}
+	if len(pod.UID) > 0 {
+		options.Preconditions = &metav1.Preconditions{UID: &pod.UID}
+	}
+	err := spc.client.CoreV1().Pods(set.Namespace).Delete(context.TODO(), pod.Name, options)
 	spc.recordPodEvent("delete", set, pod, err)
 	return err
 }
